@@ -33,10 +33,21 @@ def entries():
                                     repr(DateAdjusters.next_or_same(IsoDayOfWeek.WEDNESDAY)(d2))),
                            lambda: (repr(DateAdjusters.next(IsoDayOfWeek.WEDNESDAY)(d2)), repr(DateAdjusters.previous(IsoDayOfWeek.SUNDAY)(d2)), repr(DateAdjusters.start_of_month(d2)),
                                     repr(DateAdjusters.day_of_month(15)(d2)), repr(DateAdjusters.previous_or_same(IsoDayOfWeek.MONDAY)(d2))))
+    from pyoda_time import LocalTime, OffsetDateTime, Period
+    ldt0 = LocalDateTime(2020, 1, 1, 0, 0, 0)
+    e["time-unit-arithmetic"] = (lambda: (repr(ldt0 + Period.from_hours(25) + Period.from_minutes(3)), repr(ldt0.plus_seconds(86399).plus_nanoseconds(10**9)), repr(LocalTime(23, 59).plus_minutes(2))),
+                                 lambda: (repr(ldt0.plus_hours(1)), repr(ldt0.plus_milliseconds(-1)), repr(ldt0.plus_ticks(7)), repr(LocalTime(0, 0).plus_hours(-1))))
+
+    def _aware(h, m=0):
+        return repr(OffsetDateTime(LocalDateTime(2024, 5, 6, 7, 8, 9), Offset.from_hours_and_minutes(h, m)).to_aware_datetime())
+    e["stdlib-bridges"] = (lambda: (_aware(-5), _aware(5, 30), repr(LocalDate(2024, 2, 29).to_date()), repr(Instant.from_unix_time_seconds(1).to_datetime_utc())),
+                           lambda: (_aware(9), _aware(-9, -30), _aware(0), repr(LocalDateTime(2024, 2, 29, 1, 2, 3).to_naive_datetime())))
     return e
 
 
 FILES = {
+    "time-unit-arithmetic": ("_time_period_field.py", "_local_date_time.py::plus|plus_hours|plus_minutes|plus_seconds|plus_milliseconds|plus_ticks|plus_nanoseconds", "_local_time.py::plus_hours|plus_minutes"),
+    "stdlib-bridges": ("_offset_date_time.py::to_aware_datetime", "_local_date.py::to_date", "_instant.py::to_datetime_utc", "_local_date_time.py::to_naive_datetime"),
     "date-adjusters": ("_date_adjusters.py",),
     "weekyear-rules": ("_week_year_rules.py", "_simple_week_year_rule.py"),
     "calendar-hebrew": ("_calendar_system.py",),
